@@ -258,8 +258,8 @@ impl StringDecoder for Unreal2StringDecoder {
 
             length = position + 1;
 
-            // Decode as latin1
-            let (result, _, invalid_sequences) = WINDOWS_1252.decode(&data[0 .. position]);
+            // Decode as latin1 (the first byte is the length, not text)
+            let (result, _, invalid_sequences) = WINDOWS_1252.decode(&data[position.min(1) .. position]);
 
             if invalid_sequences {
                 return Err(PacketBad.context("latin1 string contained invalid character(s)"));
